@@ -4,7 +4,7 @@ CONSTANTS
   MaxWire = 2
   Terms = {1, 2}
   Indexes = {0, 1}
-  MaxEnts = 2
+  MaxEnts = 1
   Sizes = {1}
   Commits = {0, 1}
   Lazy = TRUE
